@@ -23,7 +23,7 @@ type c20Case struct {
 	Kind    string     `json:"kind"` // seq | conc
 	Ops     []string   `json:"ops,omitempty"`
 	Threads [][]string `json:"threads,omitempty"`
-	Stale   int        `json:"stale"` // 0 | 1 (entry) | 2 (entry + file)
+	Stale   int        `json:"stale"`         // 0 | 1 (entry) | 2 (entry + file)
 	Big     bool       `json:"big,omitempty"` // two more stale entries in front of f.snap, 9 KB of text after them (more than a reader's first buffer)
 	Sort    bool       `json:"sort,omitempty"`
 	CI      bool       `json:"ci,omitempty"`
